@@ -205,11 +205,11 @@ func (m *MatchRDP) Match(cx *layer4.Connection) (bool, error) {
 		// NOTE: maximum length has been calculated for a cookie having IPv4 address. If it supports IPv6 addresses,
 		// RDPTokenOptionalCookieBytesMax constant has to be adjusted accordingly. The IP parsing process
 		// would also need to be redesigned to provide for solutions relevant for both address families.
-		RDPTokenOptionalCookieBytesTotal := l - 2 // exclude CR LF
-		if RDPTokenOptionalCookieBytesTotal < RDPTokenOptionalCookieBytesMin ||
-			RDPTokenOptionalCookieBytesTotal > RDPTokenOptionalCookieBytesMax {
+		// (both bounds include the trailing CR LF, like l)
+		if l < RDPTokenOptionalCookieBytesMin || l > RDPTokenOptionalCookieBytesMax {
 			break
 		}
+		RDPTokenOptionalCookieBytesTotal := l - 2 // exclude CR LF
 
 		// Validate RDPToken.Optional (2/6)
 		c := string(t.Optional[RDPTokenOptionalCookieBytesStart:RDPTokenOptionalCookieBytesTotal])
